@@ -24,17 +24,21 @@ macro_rules! ensure {
     ($c:expr, $($a:tt)*) => { if !($c) { return Err(format!($($a)*)); } };
 }
 
-thread_local! { static LAST_PANIC: RefCell<Option<String>> = const { RefCell::new(None) }; }
+thread_local! { static LAST_PANIC: RefCell<Option<String>> = const { RefCell::new(None) }; static IN_GUARD: std::cell::Cell<u32> = const { std::cell::Cell::new(0) }; }
 pub fn install_panic_hook() {
     std::panic::set_hook(Box::new(|pi| {
         let msg = if let Some(s) = pi.payload().downcast_ref::<&str>() { s.to_string() } else if let Some(s) = pi.payload().downcast_ref::<String>() { s.clone() } else { "<non-string panic>".into() };
         let loc = pi.location().map(|l| format!("{}:{}", l.file(), l.line())).unwrap_or_default();
+        if IN_GUARD.with(|g| g.get()) == 0 { eprintln!("kverif: panic outside a guarded case: {} at {}", msg, loc); }
         LAST_PANIC.with(|p| *p.borrow_mut() = Some(format!("panic: {} at {}", msg, loc)));
     }));
 }
 /// Run `f`, turning a panic into Err("panic: <message> at <file>:<line>").
 pub fn guard<T>(f: impl FnOnce() -> T) -> Result<T, String> {
-    match catch_unwind(AssertUnwindSafe(f)) {
+    IN_GUARD.with(|g| g.set(g.get() + 1));
+    let r = catch_unwind(AssertUnwindSafe(f));
+    IN_GUARD.with(|g| g.set(g.get() - 1));
+    match r {
         Ok(v) => Ok(v),
         Err(_) => Err(LAST_PANIC.with(|p| p.borrow_mut().take()).unwrap_or_else(|| "panic: <unknown>".into())),
     }
